@@ -28,10 +28,13 @@ CONSTANTS
   Msgs,     \* sequence of [ch, frags]; frags = fragment sizes (1200 except the last)
   MaxDrop, MaxDup, MaxT3,   \* fault budgets before Heal
   CntCap,   \* cap of the per-chunk transmission counter
+  Mod, Origin,   \* TSN space: 0 = unbounded naturals; otherwise TSNs live modulo Mod and start at Origin (C17)
+  SMod, SOrigin, \* stream sequence number space, likewise
   Dev       \* deviations: subset of DevNames
 
 DevNames == {"FlightLeakOnAbandon", "AbandonSentOnly", "NoFwdResend", "FwdSeqBackward",
              "PruneAllStreams", "NoT3OnRetx", "DupNotFiltered", "NoFlushOnSack",
+             "NumericTsnCompare",      \* C17: TSNs compared as plain integers (numeric sorted() of e4fb4d8's defect)
              \* harmless since ordered delivery skips undeliverable chunks (be1f8ac): kept as history
              "PopNoReset", "NoPopAfterPrune"}
 
@@ -46,6 +49,20 @@ Max(a, b) == IF a > b THEN a ELSE b
 SetMax(S) == CHOOSE x \in S : \A y \in S : y <= x
 SetMin(S) == CHOOSE x \in S : \A y \in S : x <= y
 Sids == {Chans[c].sid : c \in DOMAIN Chans}
+
+\* Sequence-number spaces (C17).  The state holds WRAPPED numbers; every comparison the code
+\* makes with uint32_gt / uint32_gte / tsn_plus_one (uint16_* for stream sequence numbers) is
+\* made with the serial operators below; with Mod = 0 they are the ordinary ones.
+W(t) == IF Mod = 0 THEN t ELSE (Origin + t) % Mod                  \* abstract TSN t = 0, 1, 2 ... -> wire
+TGt(a, b) == IF Mod = 0 \/ "NumericTsnCompare" \in Dev THEN a > b
+             ELSE a # b /\ ((a - b + Mod) % Mod) < (Mod \div 2)
+TGe(a, b) == a = b \/ TGt(a, b)
+TSucc(a) == IF Mod = 0 THEN a + 1 ELSE (a + 1) % Mod
+TDist(a, b) == IF Mod = 0 THEN a - b ELSE (a - b + Mod) % Mod      \* how far a is ahead of b
+WS(q) == IF SMod = 0 THEN q ELSE (SOrigin + q) % SMod
+SGt(a, b) == IF SMod = 0 THEN a > b ELSE a # b /\ ((a - b + SMod) % SMod) < (SMod \div 2)
+SGe(a, b) == a = b \/ SGt(a, b)
+SSucc(a) == IF SMod = 0 THEN a + 1 ELSE (a + 1) % SMod
 
 -----------------------------------------------------------------------------
 (* Static chunk table: what _send() produces for the messages, in order.     *)
@@ -63,9 +80,13 @@ BuildChunks(i, acc, sseqs) ==
        IN BuildChunks(i + 1, acc \o new,
                       IF c.ordered THEN [sseqs EXCEPT ![c.sid] = @ + 1] ELSE sseqs)
 
-CT == BuildChunks(1, <<>>, [s \in Sids |-> 0])      \* CT[tsn], tsn = 1..Len(CT)
-MsgTsns(i) == {t \in 1..Len(CT) : CT[t].msg = i}
-TsnSeq(i) == [k \in 1..Cardinality(MsgTsns(i)) |-> SetMin(MsgTsns(i)) + k - 1]
+CTA == BuildChunks(1, <<>>, [s \in Sids |-> 0])     \* CTA[t], abstract t = 1..Len(CTA)
+Abs(w) == IF Mod = 0 THEN w ELSE CHOOSE t \in 1..Len(CTA) : W(t) = w   \* (fewer than Mod/2 chunks)
+\* attributes of the chunk with wire TSN w (in the code they are fields of the chunk object);
+\* the stream sequence number is the wire value
+CT == [w \in {W(t) : t \in 1..Len(CTA)} |-> [CTA[Abs(w)] EXCEPT !.sseq = WS(@)]]
+MsgTsns(i) == {t \in 1..Len(CTA) : CTA[t].msg = i}
+TsnSeq(i) == [k \in 1..Cardinality(MsgTsns(i)) |-> W(SetMin(MsgTsns(i)) + k - 1)]
 
 -----------------------------------------------------------------------------
 (* Packets.  One datagram carries one chunk (the code does not bundle).      *)
@@ -112,7 +133,7 @@ MaybeAbandon(s, i) ==
 
 \* _update_advanced_peer_ack_point
 UpdateAdv(s0) ==
-  LET s1 == IF s0.lastSacked >= s0.adv
+  LET s1 == IF TGe(s0.lastSacked, s0.adv)
               THEN [s0 EXCEPT !.adv = s0.lastSacked, !.fwdPending = FALSE, !.fwdStreams = {}]
               ELSE s0
       q == s1.sentq
@@ -159,7 +180,7 @@ NewTx(s, cw, out) ==
 Transmit(s0, out0) ==
   LET s1 == IF s0.fwd.on THEN [s0 EXCEPT !.fwd = NoFwd, !.t3 = TRUE] ELSE s0
       out1 == IF s0.fwd.on THEN Append(out0, Fwd(s0.fwd.cum, s0.fwd.st)) ELSE out0
-      burst == IF s1.frExit # 0 THEN 2 * MTU ELSE 4 * MTU
+      burst == IF s1.frOn THEN 2 * MTU ELSE 4 * MTU
       cw == Min(s1.flight + burst, s1.cwnd)
       r == Retx(s1, 1, cw, out1)
   IN IF r.stop THEN <<r.s, r.out>> ELSE NewTx(r.s, cw, r.out)
@@ -175,7 +196,7 @@ Flush(s, out) ==
 \* _receive_sack_chunk
 RECURSIVE GapAck(_, _, _, _, _, _)
 GapAck(s, i, hs, gaps, db, htna) ==
-  IF i > Len(s.sentq) \/ s.sentq[i].tsn > hs THEN [s |-> s, db |-> db, htna |-> htna]
+  IF i > Len(s.sentq) \/ TGt(s.sentq[i].tsn, hs) THEN [s |-> s, db |-> db, htna |-> htna]
   ELSE IF s.sentq[i].tsn \in gaps /\ ~s.sentq[i].acked
     THEN GapAck(FlightDec([s EXCEPT !.sentq[i].acked = TRUE], i), i + 1, hs, gaps,
                 db + CT[s.sentq[i].tsn].size, s.sentq[i].tsn)
@@ -183,7 +204,7 @@ GapAck(s, i, hs, gaps, db, htna) ==
 
 RECURSIVE Strike(_, _, _, _, _, _)
 Strike(s, i, n0, htna, gaps, loss) ==
-  IF i > n0 \/ s.sentq[i].tsn > htna THEN [s |-> s, loss |-> loss]
+  IF i > n0 \/ TGt(s.sentq[i].tsn, htna) THEN [s |-> s, loss |-> loss]
   ELSE IF s.sentq[i].tsn \in gaps THEN Strike(s, i + 1, n0, htna, gaps, loss)
   ELSE IF s.sentq[i].misses + 1 # 3
     THEN Strike([s EXCEPT !.sentq[i].misses = @ + 1], i + 1, n0, htna, gaps, loss)
@@ -194,11 +215,13 @@ Strike(s, i, n0, htna, gaps, loss) ==
          IN Strike(s3, i + 1, n0, htna, gaps, TRUE)
 
 RecvSack(s0, cum, gaps) ==
-  IF s0.lastSacked > cum THEN <<s0, <<>>>>
+  IF TGt(s0.lastSacked, cum) THEN <<s0, <<>>>>
   ELSE
     LET fully == s0.flight >= s0.cwnd
         q == s0.sentq
-        np == Cardinality({i \in 1..Len(q) : q[i].tsn <= cum})
+        RECURSIVE PopN(_)     \* chunks at the head of the sent queue covered by the cumulative ack
+        PopN(j) == IF j <= Len(q) /\ TGe(cum, q[j].tsn) THEN PopN(j + 1) ELSE j - 1
+        np == PopN(1)
         RECURSIVE PopB(_)     \* bytes newly acknowledged among the popped chunks
         PopB(j) == IF j > np THEN 0 ELSE (IF q[j].acked THEN 0 ELSE CT[q[j].tsn].size) + PopB(j + 1)
         RECURSIVE PopF(_, _)  \* flight size after releasing the popped chunks
@@ -206,13 +229,14 @@ RecvSack(s0, cum, gaps) ==
                       ELSE PopF(j + 1, IF q[j].infl THEN Max(0, f - CT[q[j].tsn].size) ELSE f)
         s1 == [s0 EXCEPT !.lastSacked = cum, !.sentq = SubSeq(q, np + 1, Len(q)), !.flight = PopF(1, @)]
         ga == IF gaps = {} THEN [s |-> s1, db |-> PopB(1), htna |-> cum]
-              ELSE GapAck(s1, 1, SetMax(gaps), gaps, PopB(1), cum)
+              ELSE GapAck(s1, 1, CHOOSE g \in gaps : \A h \in gaps : TDist(g, cum) >= TDist(h, cum),
+                          gaps, PopB(1), cum)
         sk == IF gaps = {} THEN [s |-> ga.s, loss |-> FALSE]
               ELSE Strike(ga.s, 1, Len(ga.s.sentq), ga.htna, gaps, FALSE)
         s2 == sk.s
         db == ga.db
         \* congestion window
-        s3 == IF s2.frExit = 0
+        s3 == IF ~s2.frOn
                 THEN LET sa == IF np > 0 /\ fully
                                  THEN (IF s2.cwnd <= s2.ssthresh
                                          THEN [s2 EXCEPT !.cwnd = @ + Min(db, MTU)]
@@ -222,10 +246,10 @@ RecvSack(s0, cum, gaps) ==
                                  ELSE s2
                      IN IF sk.loss
                           THEN LET th == Max(sa.cwnd \div 2, 4 * MTU)
-                               IN [sa EXCEPT !.ssthresh = th, !.cwnd = th, !.pba = 0,
+                               IN [sa EXCEPT !.ssthresh = th, !.cwnd = th, !.pba = 0, !.frOn = TRUE,
                                              !.frExit = sa.sentq[Len(sa.sentq)].tsn, !.frTx = TRUE]
                           ELSE sa
-                ELSE IF cum >= s2.frExit THEN [s2 EXCEPT !.frExit = 0] ELSE s2
+                ELSE IF TGe(cum, s2.frExit) THEN [s2 EXCEPT !.frOn = FALSE, !.frExit = 0] ELSE s2
         s4 == IF s3.sentq = <<>> THEN [s3 EXCEPT !.t3 = FALSE]
               ELSE IF np > 0 THEN [s3 EXCEPT !.t3 = TRUE] ELSE s3
         s5 == UpdateAdv(s4)
@@ -241,7 +265,7 @@ T3Mark(s, i, n0) ==
 
 T3Expired(s0) ==
   LET s1 == UpdateAdv(T3Mark([s0 EXCEPT !.t3 = FALSE], 1, Len(s0.sentq)))
-      s2 == [s1 EXCEPT !.frExit = 0, !.flight = 0, !.pba = 0,
+      s2 == [s1 EXCEPT !.frOn = FALSE, !.frExit = 0, !.flight = 0, !.pba = 0,
                        !.sentq = [j \in 1..Len(s1.sentq) |-> [s1.sentq[j] EXCEPT !.infl = FALSE]],
                        !.ssthresh = Max(s1.cwnd \div 2, 4 * MTU), !.cwnd = MTU]
   IN Transmit(s2, <<>>)
@@ -257,12 +281,12 @@ PopStep(re, pos, sp, exp, ord, sq, out) ==
   IF c.e
     THEN LET frs == SubSeq(re, sp, pos)
              re2 == SubSeq(re, 1, sp - 1) \o SubSeq(re, pos + 1, Len(re))
-             sq2 == IF ord /\ c.sseq = sq THEN sq + 1 ELSE sq
+             sq2 == IF ord /\ c.sseq = sq THEN SSucc(sq) ELSE sq
              o2 == Append(out, [msg |-> c.msg, ok |-> (frs = TsnSeq(c.msg))])
          IN IF "PopNoReset" \in Dev
-              THEN Pop(re2, sp, sp, exp + 1, ord, sq2, o2)   \* old code: scan state kept (harmless since be1f8ac)
-              ELSE Pop(re2, sp, 0, exp + 1, ord, sq2, o2)
-    ELSE Pop(re, pos + 1, sp, exp + 1, ord, sq, out)
+              THEN Pop(re2, sp, sp, TSucc(exp), ord, sq2, o2)   \* old code: scan state kept (harmless since be1f8ac)
+              ELSE Pop(re2, sp, 0, TSucc(exp), ord, sq2, o2)
+    ELSE Pop(re, pos + 1, sp, TSucc(exp), ord, sq, out)
 
 Pop(re, pos, sp, exp, ord, sq, out) ==
   IF pos > Len(re) THEN [re |-> re, seq |-> sq, out |-> out]
@@ -272,7 +296,7 @@ Pop(re, pos, sp, exp, ord, sq, out) ==
            \* a chunk that cannot start a deliverable message is skipped, it does not block
            \* what follows (fragment without its beginning; stream sequence number ahead)
            IF ~c.b THEN Pop(re, pos + 1, 0, exp, o, sq, out)
-           ELSE IF o /\ c.sseq > sq THEN Pop(re, pos + 1, 0, exp, o, sq, out)
+           ELSE IF o /\ SGt(c.sseq, sq) THEN Pop(re, pos + 1, 0, exp, o, sq, out)
            ELSE PopStep(re, pos, pos, re[pos], o, sq, out)
       ELSE IF re[pos] # exp
              \* the message that starts at sp is incomplete; an ordered stream looks at this
@@ -281,22 +305,22 @@ Pop(re, pos, sp, exp, ord, sq, out) ==
                           ELSE Pop(re, pos + 1, 0, exp, ord, sq, out))
              ELSE PopStep(re, pos, sp, exp, ord, sq, out)
 
-PopMessages(st) == Pop(st.re, 1, 0, 0, TRUE, st.seq, <<>>)
+PopMessages(st) == Pop(st.re, 1, 0, W(0), TRUE, st.seq, <<>>)
 
 InsertSorted(re, t) ==
-  LET lower == {j \in 1..Len(re) : re[j] < t}
+  LET lower == {j \in 1..Len(re) : TGt(t, re[j])}
       k == Cardinality(lower)
   IN SubSeq(re, 1, k) \o <<t>> \o SubSeq(re, k + 1, Len(re))
 
 Absorb(r) ==     \* consolidate the misordered set into the cumulative TSN
   LET RECURSIVE Up(_)
-      Up(x) == IF (x + 1) \in r.mis THEN Up(x + 1) ELSE x
+      Up(x) == IF TSucc(x) \in r.mis THEN Up(TSucc(x)) ELSE x
       lr == Up(r.last)
-  IN [r EXCEPT !.last = lr, !.mis = {x \in @ : x > lr}]
+  IN [r EXCEPT !.last = lr, !.mis = {x \in @ : TGt(x, lr)}]
 
 \* _handle_data with one DATA chunk: <<receiver', delivered, sack>>
 RecvData(r0, t) ==
-  IF (r0.last >= t \/ t \in r0.mis) /\ "DupNotFiltered" \notin Dev
+  IF (TGe(r0.last, t) \/ t \in r0.mis) /\ "DupNotFiltered" \notin Dev
     THEN <<r0, <<>>, Sack(r0.last, r0.mis)>>
     ELSE LET r1 == Absorb([r0 EXCEPT !.mis = @ \cup {t}])
              sd == CT[t].sid
@@ -313,13 +337,13 @@ FwdStreams(r, todo, out) ==
            sd == x \div 1000
            ss == x % 1000
            st0 == r.streams[sd]
-           st1 == IF "FwdSeqBackward" \in Dev \/ ss >= st0.seq THEN [st0 EXCEPT !.seq = ss + 1] ELSE st0
+           st1 == IF "FwdSeqBackward" \in Dev \/ SGe(ss, st0.seq) THEN [st0 EXCEPT !.seq = SSucc(ss)] ELSE st0
            pm == PopMessages(st1)
        IN FwdStreams([r EXCEPT !.streams[sd] = [re |-> pm.re, seq |-> pm.seq]], todo \ {x}, out \o pm.out)
 
 RecvFwd(r0, cum, streams) ==
-  IF r0.last >= cum THEN <<r0, <<>>, Sack(r0.last, r0.mis)>>
-  ELSE LET r1 == Absorb([r0 EXCEPT !.last = cum, !.mis = {x \in @ : x > cum}])
+  IF TGe(r0.last, cum) THEN <<r0, <<>>, Sack(r0.last, r0.mis)>>
+  ELSE LET r1 == Absorb([r0 EXCEPT !.last = cum, !.mis = {x \in @ : TGt(x, cum)}])
            fs == FwdStreams(r1, {x \in streams : (x \div 1000) \in Sids}, <<>>)
            upto == IF "PruneAllStreams" \in Dev THEN fs[1].last ELSE cum
            \* prune obsolete chunks; pruning may unblock messages queued behind them
@@ -327,7 +351,7 @@ RecvFwd(r0, cum, streams) ==
            PruneAll(r, todo, out) ==
              IF todo = {} THEN <<r, out>>
              ELSE LET sd == SetMin(todo)
-                      st1 == [r.streams[sd] EXCEPT !.re = SelectSeq(@, LAMBDA t : t > upto)]
+                      st1 == [r.streams[sd] EXCEPT !.re = SelectSeq(@, LAMBDA t : TGt(t, upto))]
                       pm == IF "NoPopAfterPrune" \in Dev THEN [re |-> st1.re, seq |-> st1.seq, out |-> <<>>]
                             ELSE PopMessages(st1)
                   IN PruneAll([r EXCEPT !.streams[sd] = [re |-> pm.re, seq |-> pm.seq]], todo \ {sd}, out \o pm.out)
@@ -338,10 +362,10 @@ RecvFwd(r0, cum, streams) ==
 -----------------------------------------------------------------------------
 Init ==
   /\ snd = [next |-> 1, dcq |-> <<>>, outq |-> <<>>, sentq |-> <<>>, flight |-> 0,
-            cwnd |-> 3 * MTU, ssthresh |-> 1048576, pba |-> 0, frExit |-> 0, frTx |-> FALSE,
-            lastSacked |-> 0, adv |-> 0, fwd |-> NoFwd, fwdPending |-> FALSE, fwdStreams |-> {},
+            cwnd |-> 3 * MTU, ssthresh |-> 1048576, pba |-> 0, frOn |-> FALSE, frExit |-> 0, frTx |-> FALSE,
+            lastSacked |-> W(0), adv |-> W(0), fwd |-> NoFwd, fwdPending |-> FALSE, fwdStreams |-> {},
             t3 |-> FALSE, expired |-> 0]
-  /\ rcv = [last |-> 0, mis |-> {}, streams |-> [sd \in Sids |-> [re |-> <<>>, seq |-> 0]]]
+  /\ rcv = [last |-> W(0), mis |-> {}, streams |-> [sd \in Sids |-> [re |-> <<>>, seq |-> WS(0)]]]
   /\ net = {}
   /\ sentH = [c \in DOMAIN Chans |-> <<>>]
   /\ dlvH = [c \in DOMAIN Chans |-> <<>>]
@@ -470,7 +494,7 @@ C02_Drains == healed ~> Quiescent
 \* point and holds no stranded chunk (a complete message left in a reassembly queue is a
 \* blocked stream; fragments of abandoned messages must have been pruned)
 AtRest == ~Work /\ net = {} /\ healed /\ ~snd.t3
-C06_CaughtUp == AtRest => (rcv.last >= snd.adv /\ rcv.last >= snd.lastSacked /\ rcv.mis = {})
+C06_CaughtUp == AtRest => (TGe(rcv.last, snd.adv) /\ TGe(rcv.last, snd.lastSacked) /\ rcv.mis = {})
 C06_NoOrphans == AtRest => \A sd \in Sids : rcv.streams[sd].re = <<>>
 
 \* M-level sanity (not a property clause): the flight size is what is in flight
@@ -485,8 +509,8 @@ NetBound == Cardinality(net) <= MaxNet
 
 \* witnesses (must be violated: the configuration exercises these mechanisms)
 W_NoRetransmission == \A j \in 1..Len(snd.sentq) : snd.sentq[j].cnt <= 1
-W_NoFastRecovery == snd.frExit = 0
-W_NoAbandon == snd.adv <= snd.lastSacked
+W_NoFastRecovery == ~snd.frOn
+W_NoAbandon == TGe(snd.lastSacked, snd.adv)
 W_NoReassembly == \A sd \in Sids : Len(rcv.streams[sd].re) <= 1
 W_NotAllDelivered == ~(snd.next > Len(Msgs) /\ \A c \in DOMAIN Chans : SeqSet(sentH[c]) = SeqSet(dlvH[c]))
 =============================================================================
